@@ -19,12 +19,13 @@ theorem blocking_sound' (ω : Oracle) (fuel : Nat) (st : Stmt) (s : St) (h : blo
     (exec ω fuel st s).1 ≠ .normal := blocking_sound ω fuel st s h
 
 /-- **Unreachable code**: deleting everything after the first blocking statement of a statement list changes
-neither the outcome nor the consumed oracle stream, for every oracle and fuel. -/
+neither the outcome, nor the consumed oracle stream, nor the trace of executed statements and evaluated tests,
+for every oracle and fuel. -/
 theorem unreachable_sound (ω : Oracle) (fuel : Nat) (l : List Stmt) (s : St) :
     execList ω fuel (deleteUnreachable l) s = execList ω fuel l s := deleteUnreachable_sound ω fuel l s
 
 /-- a conditional loop is never blocking: it may run zero times -/
-theorem conditional_while_not_blocking (p : Par) (b : List Stmt) : blocks p (.whileS .unk b) = false := by
+theorem conditional_while_not_blocking (p : Par) (id : Nat) (neg : Bool) (b : List Stmt) : blocks p (.whileS (.unk id neg) b) = false := by
   cases p <;> simp [blocks]
 
 /-- `while True` with a loop-level `break` is not blocking -/
@@ -46,11 +47,11 @@ agrees with the code, and `Clean` — which speaks about callees only — holds 
 example : hse ["sorted"] (.call (.name "sorted" .load) [.coll [.const]] [.name "g" .load]) = false := by decide
 
 /-! non-vacuity: concrete shapes on both sides -/
-example : blocks .none (.whileS .tt [.ite .unk [.cont] [], .simple]) = true := by
+example : blocks .none (.whileS .tt [.ite (.unk 0 false) [.cont] [], .simple 0]) = true := by
   simp [blocks, blocksL, firstIter, hasBrk, hasBrkL, hasJmp, hasJmpL]
-example : blocks .none (.forS .nonempty [.simple, .ite .unk [.ret] [.raise]]) = true := by
+example : blocks .none (.forS .nonempty [.simple 0, .ite (.unk 0 true) [.ret] [.raise]]) = true := by
   simp [blocks, blocksL, firstIter, hasBrk, hasBrkL, hasJmp, hasJmpL]
-example : blocks .none (.whileS .tt [.ite .unk [.brk] [], .ret]) = false := by
+example : blocks .none (.whileS .tt [.ite (.unk 0 false) [.brk] [], .ret]) = false := by
   simp [blocks, blocksL, firstIter, hasBrk, hasBrkL, hasJmp, hasJmpL]
 
 end C16
